@@ -215,23 +215,24 @@ theorem all_imp {vs S V : List Nat} (h : vs.all (fun v => !S.contains v || V.con
 def pushScope (st : FixSt) : FixSt :=
   { st with vstack := topOf st.vstack :: st.vstack, nstack := [] :: st.nstack }
 
-theorem enterGraph_eq {st : FixSt} (h : st.raised = false) (g : Nat) (isG : Bool) (ins outs : List Nat) :
-    enterGraph st g isG ins outs =
-      if isG = true then
-        processValues (processValues (processValues (pushScope st) ins) outs)
-          (((processValues (processValues (pushScope st) ins) outs).dicts g).map (·.2))
-      else processValues (processValues (pushScope st) ins) outs := by
+theorem enterGraph_eq {st : FixSt} (h : st.raised = false) (g : Nat) (isG : Bool) (ins outs bouts : List Nat) :
+    enterGraph st g isG ins outs bouts =
+      processValues
+        (if isG = true then
+          processValues (processValues (processValues (pushScope st) ins) outs)
+            (((processValues (processValues (pushScope st) ins) outs).dicts g).map (·.2))
+        else processValues (processValues (pushScope st) ins) outs) bouts := by
   unfold enterGraph
   rw [if_neg (by simp [h])]
   rfl
 
 theorem enterGraph_Lvl {c : Cfg} (hc : c.OK) (iv : Nat → List Nat) (hiv : ∀ g u, u ∈ iv g ↔ c.io u = some g)
     {st : FixSt} {V S : List Nat} (inv : TInv c st) (good : Good c st V) (hS : ∀ x, x ∈ st.seen ↔ x ∈ S)
-    (g : Nat) (isG : Bool) (ins outs : List Nat)
-    (hC1 : ∀ v ∈ ins ++ outs, c.C v) (hC2 : isG = true → ∀ u, c.io u = some g → c.C u)
-    (hsc : ∀ v ∈ gvals iv g isG ins outs, v ∈ S → v ∈ V) :
-    Lvl c st (enterGraph st g isG ins outs) (V ++ gvals iv g isG ins outs) (S ++ gvals iv g isG ins outs)
-    ∧ (enterGraph st g isG ins outs).vstack.tail = st.vstack := by
+    (g : Nat) (isG : Bool) (ins outs bouts : List Nat)
+    (hC1 : ∀ v ∈ ins ++ outs ++ bouts, c.C v) (hC2 : isG = true → ∀ u, c.io u = some g → c.C u)
+    (hsc : ∀ v ∈ gvals iv g isG ins outs bouts, v ∈ S → v ∈ V) :
+    Lvl c st (enterGraph st g isG ins outs bouts) (V ++ gvals iv g isG ins outs bouts) (S ++ gvals iv g isG ins outs bouts)
+    ∧ (enterGraph st g isG ins outs bouts).vstack.tail = st.vstack := by
   rw [enterGraph_eq inv.nr]
   -- the push
   generalize hst0 : pushScope st = st0
@@ -241,42 +242,63 @@ theorem enterGraph_Lvl {c : Cfg} (hc : c.OK) (iv : Nat → List Nat) (hiv : ∀ 
   have inv0 : TInv c st0 := inv.of_VEq e0
   have good0 : Good c st0 V := good.of_VEq e0 etop
   have hS0 : ∀ x, x ∈ st0.seen ↔ x ∈ S := by rw [e0.seen]; exact hS
-  have hg : ∀ v, v ∈ gvals iv g isG ins outs ↔ (v ∈ ins ∨ v ∈ outs ∨ (isG = true ∧ v ∈ iv g)) := by
+  have hg : ∀ v, v ∈ gvals iv g isG ins outs bouts ↔ (v ∈ ins ∨ v ∈ outs ∨ (isG = true ∧ v ∈ iv g) ∨ v ∈ bouts) := by
     intro v; unfold gvals; cases isG <;> simp
   -- inputs
-  obtain ⟨l1, t1⟩ := processValues_Lvl hc ins inv0 good0 hS0 (fun v hv => hC1 v (List.mem_append_left _ hv))
+  obtain ⟨l1, t1⟩ := processValues_Lvl hc ins inv0 good0 hS0
+    (fun v hv => hC1 v (List.mem_append_left _ (List.mem_append_left _ hv)))
     (fun v hv h => hsc v ((hg v).mpr (Or.inl hv)) h)
   -- outputs
-  obtain ⟨l2, t2⟩ := processValues_Lvl hc outs l1.inv l1.good l1.seenEq (fun v hv => hC1 v (List.mem_append_right _ hv))
+  obtain ⟨l2, t2⟩ := processValues_Lvl hc outs l1.inv l1.good l1.seenEq
+    (fun v hv => hC1 v (List.mem_append_left _ (List.mem_append_right _ hv)))
     (fun v hv h => by
       simp only [List.mem_append] at h ⊢
       exact h.elim (fun h => Or.inl (hsc v ((hg v).mpr (Or.inr (Or.inl hv))) h)) Or.inr)
-  cases isG with
-  | false =>
-    simp only [Bool.false_eq_true, if_false]
-    refine ⟨⟨l2.inv, l2.good.congr ?_, ?_, (Frame.of_VEq e0).trans (l1.frame.trans l2.frame)⟩, ?_⟩
-    · intro x; simp [gvals]
-    · intro x; rw [l2.seenEq x]; simp [gvals]
-    · rw [t2, t1, etail]
-  | true =>
-    simp only [if_true]
-    -- the snapshot of the initializer values, read now
-    have hdict : ∀ u, u ∈ ((processValues (processValues st0 ins) outs).dicts g).map (·.2) ↔ u ∈ iv g := by
-      intro u
-      rw [l2.inv.ok.mem_iff g u, hiv g u, l2.inv.io]
-    obtain ⟨l3, t3⟩ := processValues_Lvl hc (((processValues (processValues st0 ins) outs).dicts g).map (·.2))
-      l2.inv l2.good l2.seenEq (fun v hv => hC2 rfl v ((hiv g v).mp ((hdict v).mp hv)))
-      (fun v hv h => by
-        simp only [List.mem_append] at h ⊢
-        rcases h with (h | h) | h
-        · exact Or.inl (Or.inl (hsc v ((hg v).mpr (Or.inr (Or.inr ⟨rfl, (hdict v).mp hv⟩))) h))
-        · exact Or.inl (Or.inr h)
-        · exact Or.inr h)
-    refine ⟨⟨l3.inv, l3.good.congr ?_, ?_, (Frame.of_VEq e0).trans (l1.frame.trans (l2.frame.trans l3.frame))⟩, ?_⟩
-    · intro x; simp only [gvals, if_true, List.mem_append, hdict x, or_assoc]
-    · intro x; rw [l3.seenEq x]; simp only [gvals, if_true, List.mem_append, hdict x, or_assoc]
-    · rw [t3, t2, t1, etail]
-
+  -- initializers (a snapshot read now), uniformly for both cases of `isG`
+  have step3 : ∃ X : List Nat, (∀ x, x ∈ X ↔ (isG = true ∧ x ∈ iv g)) ∧
+      Lvl c (processValues (processValues st0 ins) outs)
+        (if isG = true then
+          processValues (processValues (processValues st0 ins) outs)
+            (((processValues (processValues st0 ins) outs).dicts g).map (·.2))
+        else processValues (processValues st0 ins) outs) (V ++ ins ++ outs ++ X) (S ++ ins ++ outs ++ X)
+      ∧ (if isG = true then
+          processValues (processValues (processValues st0 ins) outs)
+            (((processValues (processValues st0 ins) outs).dicts g).map (·.2))
+        else processValues (processValues st0 ins) outs).vstack.tail = (processValues (processValues st0 ins) outs).vstack.tail := by
+    cases isG with
+    | false =>
+      refine ⟨[], fun x => by simp, ?_, rfl⟩
+      simp only [Bool.false_eq_true, if_false, List.append_nil]
+      exact ⟨l2.inv, l2.good, l2.seenEq, Frame.refl _⟩
+    | true =>
+      simp only [if_true]
+      have hdict : ∀ u, u ∈ ((processValues (processValues st0 ins) outs).dicts g).map (·.2) ↔ u ∈ iv g := by
+        intro u
+        rw [l2.inv.ok.mem_iff g u, hiv g u, l2.inv.io]
+      obtain ⟨l3, t3⟩ := processValues_Lvl hc (((processValues (processValues st0 ins) outs).dicts g).map (·.2))
+        l2.inv l2.good l2.seenEq (fun v hv => hC2 rfl v ((hiv g v).mp ((hdict v).mp hv)))
+        (fun v hv h => by
+          simp only [List.mem_append] at h ⊢
+          rcases h with (h | h) | h
+          · exact Or.inl (Or.inl (hsc v ((hg v).mpr (Or.inr (Or.inr (Or.inl ⟨rfl, (hdict v).mp hv⟩)))) h))
+          · exact Or.inl (Or.inr h)
+          · exact Or.inr h)
+      exact ⟨_, fun x => by rw [hdict x]; simp, l3, t3⟩
+  obtain ⟨X, hX, l3, t3⟩ := step3
+  -- the outputs of the graph's own nodes
+  obtain ⟨l4, t4⟩ := processValues_Lvl hc bouts l3.inv l3.good l3.seenEq
+    (fun v hv => hC1 v (List.mem_append_right _ hv))
+    (fun v hv h => by
+      simp only [List.mem_append] at h ⊢
+      rcases h with ((h | h) | h) | h
+      · exact Or.inl (Or.inl (Or.inl (hsc v ((hg v).mpr (Or.inr (Or.inr (Or.inr hv)))) h)))
+      · exact Or.inl (Or.inl (Or.inr h))
+      · exact Or.inl (Or.inr h)
+      · exact Or.inr h)
+  refine ⟨⟨l4.inv, l4.good.congr ?_, ?_, (Frame.of_VEq e0).trans (l1.frame.trans (l2.frame.trans (l3.frame.trans l4.frame)))⟩, ?_⟩
+  · intro x; simp only [List.mem_append, hg x, hX x, or_assoc]
+  · intro x; rw [l4.seenEq x]; simp only [List.mem_append, hg x, hX x, or_assoc]
+  · rw [t4, t3, t2, t1, etail]
 
 /-! ### leaving a graph; the traversal -/
 
@@ -303,11 +325,31 @@ theorem HC.node {c : Cfg} {n : Nat} {ins : List (Option Nat)} {outs : List Nat} 
   · intro v hv; exact h.ment v (by simp [mentioned, hv])
   · intro g hg; exact h.graphs g (by simp [graphsOf, hg])
 
+theorem bodyOuts_sub_mentioned : ∀ (t : Tr) (v : Nat), v ∈ bodyOuts t → v ∈ mentioned t := by
+  intro t
+  induction t with
+  | nil => intro v h; simp [bodyOuts] at h
+  | node n ins outs subs rest _ ihr =>
+    intro v h
+    simp only [bodyOuts, List.mem_append] at h
+    simp only [mentioned, nodeVals, List.mem_append]
+    rcases h with h | h
+    · exact Or.inl (Or.inr h)
+    · exact Or.inr (Or.inr (ihr v h))
+  | graph g isG ins outs body rest _ ihr =>
+    intro v h
+    simp only [bodyOuts] at h
+    simp only [mentioned, List.mem_append]
+    exact Or.inr (Or.inr (ihr v h))
+
 theorem HC.graph {c : Cfg} {g : Nat} {isG : Bool} {ins outs : List Nat} {body rest : Tr}
     (h : HC c (.graph g isG ins outs body rest)) :
-    (∀ v ∈ ins ++ outs, c.C v) ∧ (isG = true → ∀ u, c.io u = some g → c.C u) ∧ HC c body ∧ HC c rest := by
+    (∀ v ∈ ins ++ outs ++ bodyOuts body, c.C v) ∧ (isG = true → ∀ u, c.io u = some g → c.C u) ∧ HC c body ∧ HC c rest := by
   refine ⟨fun v hv => h.ment v ?_, fun hG => h.graphs g (by simp [graphsOf, hG]), ⟨?_, ?_⟩, ⟨?_, ?_⟩⟩
-  · simp only [List.mem_append] at hv; simp only [mentioned, List.mem_append]; exact Or.inl hv
+  · simp only [List.mem_append] at hv; simp only [mentioned, List.mem_append]
+    rcases hv with hv | hv
+    · exact Or.inl hv
+    · exact Or.inr (Or.inl (bodyOuts_sub_mentioned body v hv))
   · intro v hv; exact h.ment v (by simp [mentioned, hv])
   · intro g' hg; exact h.graphs g' (by simp [graphsOf, hg])
   · intro v hv; exact h.ment v (by simp [mentioned, hv])
@@ -354,13 +396,13 @@ theorem runTr_Lvl {c : Cfg} (hc : c.OK) (iv : Nat → List Nat) (hiv : ∀ g u, 
     obtain ⟨⟨hsc1, hsc2⟩, hsc3⟩ := hsc
     simp only [runTr, bodyVis, seenAfter, allScopes]
     -- entered by `_iterate_subgraphs` ...
-    obtain ⟨l1, t1⟩ := enterGraph_Lvl hc iv hiv inv good hS g isG ins outs hC1 hC2 (all_imp hsc1)
+    obtain ⟨l1, t1⟩ := enterGraph_Lvl hc iv hiv inv good hS g isG ins outs (bodyOuts body) hC1 hC2 (all_imp hsc1)
     -- ... and again by the nested iterator: everything is seen already
-    obtain ⟨l2, t2⟩ := enterGraph_Lvl hc iv hiv l1.inv l1.good l1.seenEq g isG ins outs hC1 hC2
+    obtain ⟨l2, t2⟩ := enterGraph_Lvl hc iv hiv l1.inv l1.good l1.seenEq g isG ins outs (bodyOuts body) hC1 hC2
       (fun v hv _ => List.mem_append_right _ hv)
-    have good2 : Good c (enterGraph (enterGraph st g isG ins outs) g isG ins outs) (V ++ gvals iv g isG ins outs) :=
+    have good2 : Good c (enterGraph (enterGraph st g isG ins outs (bodyOuts body)) g isG ins outs (bodyOuts body)) (V ++ gvals iv g isG ins outs (bodyOuts body)) :=
       l2.good.congr (fun x => by simp only [List.mem_append]; exact ⟨Or.inl, fun h => h.elim id Or.inr⟩)
-    have hS2 : ∀ x, x ∈ (enterGraph (enterGraph st g isG ins outs) g isG ins outs).seen ↔ x ∈ S ++ gvals iv g isG ins outs := by
+    have hS2 : ∀ x, x ∈ (enterGraph (enterGraph st g isG ins outs (bodyOuts body)) g isG ins outs (bodyOuts body)).seen ↔ x ∈ S ++ gvals iv g isG ins outs (bodyOuts body) := by
       intro x; rw [l2.seenEq x]; simp only [List.mem_append]; exact ⟨fun h => h.elim id Or.inr, Or.inl⟩
     -- the body
     obtain ⟨l3, t3, s3⟩ := ihb l2.inv good2 hS2 hCb hsc2
@@ -370,19 +412,19 @@ theorem runTr_Lvl {c : Cfg} (hc : c.OK) (iv : Nat → List Nat) (hiv : ∀ g u, 
     obtain ⟨e5, ev5⟩ := exitGraph_VEq inv4.nr
     have inv5 := inv4.of_VEq e5
     have e35 := e4.trans e5
-    have hstk : (exitGraph (exitGraph (runTr body (enterGraph (enterGraph st g isG ins outs) g isG ins outs)))).vstack = st.vstack := by
+    have hstk : (exitGraph (exitGraph (runTr body (enterGraph (enterGraph st g isG ins outs (bodyOuts body)) g isG ins outs (bodyOuts body))))).vstack = st.vstack := by
       rw [ev5, ev4, t3, t2, t1]
-    have fr05 : Frame st (exitGraph (exitGraph (runTr body (enterGraph (enterGraph st g isG ins outs) g isG ins outs)))) :=
+    have fr05 : Frame st (exitGraph (exitGraph (runTr body (enterGraph (enterGraph st g isG ins outs (bodyOuts body)) g isG ins outs (bodyOuts body))))) :=
       l1.frame.trans (l2.frame.trans (l3.frame.trans (Frame.of_VEq e35)))
-    have good5 : Good c (exitGraph (exitGraph (runTr body (enterGraph (enterGraph st g isG ins outs) g isG ins outs)))) V :=
+    have good5 : Good c (exitGraph (exitGraph (runTr body (enterGraph (enterGraph st g isG ins outs (bodyOuts body)) g isG ins outs (bodyOuts body))))) V :=
       { toScopeOK := good.toScopeOK.frame fr05
         top_iff := fun s => by
           rw [hstk, good.top_iff s]
           constructor
           · rintro ⟨u, hu, hs⟩; exact ⟨u, hu, by rw [fr05.names u (good.seen u hu).1]; exact hs⟩
           · rintro ⟨u, hu, hs⟩; exact ⟨u, hu, by rw [← fr05.names u (good.seen u hu).1]; exact hs⟩ }
-    have hS5 : ∀ x, x ∈ (exitGraph (exitGraph (runTr body (enterGraph (enterGraph st g isG ins outs) g isG ins outs)))).seen
-        ↔ x ∈ seenAfter iv body (S ++ gvals iv g isG ins outs) := by
+    have hS5 : ∀ x, x ∈ (exitGraph (exitGraph (runTr body (enterGraph (enterGraph st g isG ins outs (bodyOuts body)) g isG ins outs (bodyOuts body))))).seen
+        ↔ x ∈ seenAfter iv body (S ++ gvals iv g isG ins outs (bodyOuts body)) := by
       rw [e35.seen]; exact l3.seenEq
     -- the following sibling graphs
     obtain ⟨l6, t6, s6⟩ := ihr inv5 good5 hS5 hCr hsc3
